@@ -164,12 +164,12 @@ Qed.
 Lemma in_client_groups c g : In g (client_groups c) -> In g (client_groups_policy (cl_set c)).
 Proof.
   unfold client_groups, client_groups_policy.
-  set (g0 := (if existsb (fun s : Z => memZ s ecdhAllSuites) (client_suites c) then curves_to_list (cl_set c) 4 else []) ++
-             (if existsb (fun s : Z => memZ s dhAllSuites) (client_suites c) then st_dhgroups (cl_set c) else [])).
+  set (g0 := (if existsb (fun s : Z => memZ s ecdhAllSuites) (client_suites c) || _ then curves_to_list (cl_set c) 4 else []) ++
+             (if _ || existsb (fun s : Z => memZ s dhAllSuites) (client_suites c) then st_dhgroups (cl_set c) else [])).
   assert (G0 : forall x, In x g0 -> In x (st_curves (cl_set c)) \/ In x (st_dhgroups (cl_set c))).
   { intros x Hx. unfold g0 in Hx. apply in_app_or in Hx. destruct Hx as [Hx|Hx].
-    - destruct (existsb _ _) in Hx; [left; eapply in_curves_to_list; exact Hx|destruct Hx].
-    - destruct (existsb _ _) in Hx; [right; exact Hx|destruct Hx]. }
+    - destruct (_ || _) in Hx; [left; eapply in_curves_to_list; exact Hx|destruct Hx].
+    - destruct (_ || _) in Hx; [right; exact Hx|destruct Hx]. }
   destruct g0 as [|x0 t0] eqn:EG; [intros []|].
   destruct (_ && _); intros Hg.
   - apply in_app_or in Hg. destruct Hg as [Hg|Hg].
@@ -246,7 +246,6 @@ Proof.
   destruct (match ch_rsl ch with Some r => _ | None => _ end) as [[]|] eqn:E4; [|discriminate H]. cbn [bind] in H.
   destruct (server_select_suite s ch v' (server_suites s ch v')) as [[su sg]|] eqn:E5; [|discriminate H]. cbn [bind] in H.
   destruct (if 3 <? v' then server_group13 (sv_set s) ch else Ok (0, false)) as [g|] eqn:E6; [|discriminate H]. cbn [bind] in H.
-  destruct (match ch_rsl ch, st_rsl (sv_set s) with Some _, Some mine => _ | _, _ => _ end) as [[]|] eqn:E7; [|discriminate H]. cbn [bind] in H.
   injection H as <- <- <- <-.
   destruct (server_select_suite_in _ _ _ _ _ _ E5) as [A B].
   repeat split; try assumption; try reflexivity.
